@@ -20,6 +20,21 @@ func NewLocation(f *fs.File, i bytes.Index) Location {
 		Index: i,
 		Quote: quote(f.Content(), i),
 	}
-	loc.Line, loc.Column = f.Content().LineAndColumn(i)
+	loc.Line, loc.Column = lineAndColumn(f.Content(), i)
 	return loc
+}
+
+// lineAndColumn extends bytes.LineAndColumn to the end-of-file position (index equals
+// the length of the content), which is where errors like an unterminated comment or an
+// unclosed parenthesis are reported: it is the position right after the last byte.
+func lineAndColumn(content bytes.Bytes, i bytes.Index) (line, column bytes.Index) {
+	l := content.LenIndex()
+	if l == 0 || i != l {
+		return content.LineAndColumn(i)
+	}
+	line, column = content.LineAndColumn(l - 1)
+	if content.Byte(l-1) == content.NewLineSymbol() {
+		return line + 1, 1
+	}
+	return line, column + 1
 }
